@@ -268,7 +268,7 @@ func NewWorld(cfg Config) *World {
 
 // ---- scripted handler: the rpc name is "/p/<idx>/<prog>", prog = dot-separated steps ----
 //
-//	rN  receive N messages        rA  receive until an error (EOF included)
+//	rN  receive N messages        rA  receive until an error (EOF included)        f  RawFlush
 //	sN:L send N messages of body length L   c  CloseSend
 //	w   wait for the stream context to be done
 //	eK  return an error with drpc code K    x  return nil
@@ -333,6 +333,10 @@ func (h handler) HandleRPC(stream drpc.Stream, rpc string) error {
 		case 'w':
 			<-stream.Context().Done()
 			w.logf("H%d:ctxdone", idx)
+		case 'f': // explicit flush (ManualFlush handlers)
+			if fl, ok := stream.(interface{ RawFlush() error }); ok {
+				w.logf("H%d:flush:%s", idx, errName(fl.RawFlush()))
+			}
 		case 'e':
 			k, _ := strconv.ParseUint(st[1:], 10, 64)
 			w.logf("H%d:ret:boom%d", idx, k)
